@@ -459,11 +459,14 @@ where
             .map_err(|e| format!("layout: {e}"))?;
             let sk = make_sk::<B>(m, n, rank, dist, seed_s(inp.s));
             let _guard_sk = SkGuard::new("glwe secret sk", m, &sk);
-            let mut pt = GLWEPlaintext::alloc(deg(n), b2k(b), tp(bits));
+            // odd plaintext variants are one limb shorter than the ciphertext (the limbs the plaintext does not
+            // cover must come out as if it were zero-extended, whatever the scratch held before)
+            let pt_size = if inp.p % 2 == 1 && size >= 2 { size - 1 } else { size };
+            let mut pt = GLWEPlaintext::alloc(deg(n), b2k(b), tp(pt_size * b));
             fill_message(pt.data_mut(), b, 5 + inp.p, &mut Rng::new(7, inp.p as u64));
             let _guard_pt = RawGuard::new("plaintext", pt.data().raw());
             let zero: Vec<IBig> = vec![IBig::from(0); n];
-            let want_pt: Vec<IBig> = (0..n).map(|i| coeff_value(pt.data(), 0, i, b)).collect();
+            let want_pt: Vec<IBig> = (0..n).map(|i| coeff_value(pt.data(), 0, i, b) << ((size - pt_size) * b)).collect();
             let mut xe = Source::new(seed_e(inp.e));
             let mut xa = Source::new(seed_a(inp.a));
             let mut ct = GLWE::alloc(deg(n), b2k(b), tp(bits), rk(rank));
@@ -590,7 +593,8 @@ where
             .map_err(|e| format!("layout: {e}"))?;
             let (sk, clear) = make_lwe_sk(n, dist, seed_s(inp.s));
             let _guard_sk = RawGuard::new("lwe secret sk", sk.raw());
-            let mut pt = LWEPlaintext::alloc(b2k(b), tp(bits));
+            let pt_size = if inp.p % 2 == 1 && size >= 2 { size - 1 } else { size }; // see the GLWE forms
+            let mut pt = LWEPlaintext::alloc(b2k(b), tp(pt_size * b));
             fill_message(pt.data_mut(), b, 5 + inp.p, &mut Rng::new(7, inp.p as u64));
             let _guard_pt = RawGuard::new("plaintext", pt.data().raw());
             let mut ct = LWE::alloc(deg(n), b2k(b), tp(bits));
@@ -610,7 +614,7 @@ where
             }
             let d = vec_owned(ct.data());
             let ph = lwe_phase(&d, b, &clear);
-            let want = coeff_value(pt.data(), 0, 0, b);
+            let want = coeff_value(pt.data(), 0, 0, b) << ((size - pt_size) * b);
             let err = torus::centered_mod_pow2(&(ph - want), bits);
             let mut body = vec![];
             let mut mask = vec![];
